@@ -10,8 +10,8 @@ BATCH = 1
 TECHNIQUE = ("exhaustive evaluation over a finite parameter grid x every degree of the support up to a bound, "
              "against independently evaluated closed forms (no state space to explore: bounded exhaustive input "
              "enumeration only)")
-RULE = ("grid: a in {0.01,0.1,0.5,1,2,37}, mean in {0.01,0.5,1,2.5,7,30,120,171.5,720,800}, alpha in {2,2.2,2.5,3,3.7,4}, kappa in "
-        "{0.05,0.3,1,5,25,150,1000}; two-call histories (the same factory called first with a parameter 0.04 / 0.004 "
+RULE = ("grid: a in {0.001,0.01,0.1,0.5,1,2,5.5,37}, mean in {0.01,0.5,1,2.5,7,30,120,171.5,300,450.25,720,800}, alpha in {2,2.2,2.5,2.9,3,3.7,4,5,8.5}, kappa in "
+        "{0.05,0.3,1,2.5,5,25,60,150,1000}; every function evaluated ascending, then a second one descending and at scattered k (values must not depend on the order of the calls); two-call histories (the same factory called first with a parameter 0.04 / 0.004 "
         "away, in both orders); every k of the "
         "support up to 200 (quick) / 400 (thorough); values compared with closed forms evaluated independently (exact "
         "factorials, zeta / polylog by direct summation with Euler-Maclaurin tail) within the documented truncation "
@@ -42,10 +42,10 @@ def polylog(s, z, N=200000):
     return tot
 
 
-A_GRID = (0.01, 0.1, 0.5, 1, 2, 37)
-MEAN_GRID = (0.01, 0.5, 1, 2.5, 7, 30, 120, 171.5, 720, 800)
-ALPHA_GRID = (2, 2.2, 2.5, 3, 3.7, 4)
-KAPPA_GRID = (0.05, 0.3, 1, 5, 25, 150, 1000)
+A_GRID = (0.001, 0.01, 0.1, 0.5, 1, 2, 5.5, 37)
+MEAN_GRID = (0.01, 0.5, 1, 2.5, 7, 30, 120, 171.5, 300, 450.25, 720, 800)
+ALPHA_GRID = (2, 2.2, 2.5, 2.9, 3, 3.7, 4, 5, 8.5)
+KAPPA_GRID = (0.05, 0.3, 1, 2.5, 5, 25, 60, 150, 1000)
 NEAR = (0.04, 0.004)   # a factory is also called right after / right before the same factory with a nearby parameter
 
 
@@ -130,6 +130,7 @@ def run_instance(inst, tier):
         mm = int(ps[0])
         ks = list(range(0, 40)) + list(range(mm - 100, mm + 101))
     total = 0.0
+    vals = {}
     for k in ks:
         res.executions += 1
         res.states += 1
@@ -145,7 +146,26 @@ def run_instance(inst, tier):
                           f"(allowed relative error {rel:.3g})", inst, k=k)
             return res
         total += v
+        vals[k] = v
         res.nontrivial.add((d, tuple(ps), k))
+    # order of evaluation: a second function from the same factory call arguments is evaluated from the largest k down
+    # and then once more at scattered k; a pmf value cannot depend on which k were asked for before
+    try:
+        f2 = getattr(gcmpy, d)(*ps)
+        order = list(reversed(ks)) + ks[::7] + ks[:3]
+        for k in order:
+            res.executions += 1
+            v2 = float(f2(k))
+            v1 = float(f(k))   # the first function again, now after a full ascending pass
+            if v2 != vals[k] or v1 != vals[k]:
+                res.violation(f"C19:{d}:depends-on-call-order",
+                              f"{d}{tuple(ps)}({k}) = {vals[k]!r} in an ascending pass, {v2!r} on a second function "
+                              f"evaluated from k={ks[-1]} downwards, {v1!r} when asked again", inst, k=k)
+                return res
+        res.flags.add("descending-pass")
+    except Exception as e:
+        res.violation(f"C19:{d}:raises", f"{d}{tuple(ps)} evaluated in descending order raised {e!r}", inst)
+        return res
     t = tail(kmax)
     if big:
         t = 1 - total   # only a window around the mean was evaluated; the normalisation sum is not checked here
